@@ -1145,7 +1145,7 @@ TRUSTED = [
 ]
 ASSUME = [
     "Print Assumptions for every theorem of props/C20.v: see coverage.print_assumptions",
-    "containment is proved for import nesting below the fuel (sethref_contained / parse_contained need Normal-or-caught "
-    "results of the nested loader); unbounded nesting (import cycles) is refuted: import_cycle_refuted, open finding",
+    "parse_contained: termination is proved for fetchers that serve content at finitely many URLs (fuel > their number); "
+    "the implementation additionally has CPython's recursion limit (about 190 nested sheets: open finding C20-import-chain-depth)",
     "fetcher results outside the modelled shapes (a str, a non-sequence) are not covered",
 ]
